@@ -182,7 +182,7 @@ def run(tier, seed):
     chk.add_rule("C13.S.compiled_function_called_only_at_run_time", ok, sites, failing)
     n, fails = kwargs_predicate_complete()
     chk.add_rule("C13.P.kwargs", not fails and n == 128, [f"{n} signature classes (kinds of name/arg_index/signature x **kwargs): exhaustive over the finite domain"], fails[:3], "keyword-forwarding predicate, complete enumeration on the real _call_tensorfactory")
-    m = 10 if tier == "quick" else 100
+    m = 10 if tier == "quick" else 400
     res = [x for r in harness.pmap(_work, [(seed, i) for i in range(m)]) for x in r]
     fails = [r for r in res if r[0] not in ("ok", "skipped-underdetermined")]
     seen = set()
